@@ -353,6 +353,27 @@ namespace options
         // Therefore, we need to keep checking all toggles, even after one match.
         auto match_found = false;
 
+        if (in.is_short())
+        {
+            // every single letter of a short argument has to be a toggle. Otherwise, e.g., the z
+            // in -vz, or the letter of an option hidden in there, would get lost silently.
+            auto list = in.as_short_list();
+            std::size_t known = 0;
+
+            for (auto& option : get_all_toggles())
+            {
+                if (option.second->has_short_name())
+                {
+                    known += list.count(option.second->short_name());
+                }
+            }
+
+            if (known != list.size())
+            {
+                return false;
+            }
+        }
+
         for (auto& option : get_all_toggles())
         {
             if (option.second->matches(in))
